@@ -207,6 +207,49 @@ macro_rules! float_specials {
                         $out.observe(&format!("{} {}", if ok { if $side == "L" { "ES" } else { "SE" } } else { "none" }, shape_str(&r)));
                     }};
                 }
+                // assign forms and consuming forms on signed zeros / infinities (bitwise comparison:
+                // `-0.0 + 0.0` is `+0.0`, `x * inf`, `inf - inf` = NaN with a defined bit pattern per operation)
+                macro_rules! chk_assign_sp {
+                    ($opn:expr, $opa:tt, $opb:tt) => {{
+                        for sc in ["v", "r"] {
+                            let op = format!("scassign {} {} {} {}", $tn, $opn, sc, want_shape);
+                            $out.announce(&op);
+                            let mut x = m.clone();
+                            if sc == "v" { x $opa s; } else { x $opa &s; }
+                            let vals: Vec<$t> = x.iter_elements().copied().collect();
+                            let exp: Vec<$t> = ev.iter().map(|&e| e $opb s).collect();
+                            let ok = vals.iter().zip(&exp).all(|(a, b)| a.to_bits() == b.to_bits());
+                            if !ok {
+                                $out.oracle_fail(&format!("{op} with scalar {s:?}: {:?} differs bitwise from {:?}", vals, exp));
+                            }
+                            $out.observe(&format!("{} {}", if ok { "ES" } else { "none" }, shape_str(&x)));
+                        }
+                    }};
+                }
+                chk_assign_sp!("add", +=, +);
+                chk_assign_sp!("sub", -=, -);
+                chk_assign_sp!("mul", *=, *);
+                chk_assign_sp!("div", /=, /);
+                chk_assign_sp!("rem", %=, %);
+                macro_rules! chk_own {
+                    ($opn:expr, $side:expr, $res:expr, $exp:expr) => {{
+                        let op = format!("sc {} {} {} o v v {}", $tn, $opn, $side, want_shape);
+                        $out.announce(&op);
+                        let r: Matrix<$t> = $res;
+                        let vals: Vec<$t> = r.iter_elements().copied().collect();
+                        let exp: Vec<$t> = $exp;
+                        let ok = vals.iter().zip(&exp).all(|(a, b)| a.to_bits() == b.to_bits());
+                        if !ok {
+                            $out.oracle_fail(&format!("{op} with scalar {s:?}: {:?} differs bitwise from {:?}", vals, exp));
+                        }
+                        $out.observe(&format!("{} {}", if ok { if $side == "L" { "ES" } else { "SE" } } else { "none" }, shape_str(&r)));
+                    }};
+                }
+                chk_own!("add", "L", m.clone() + s, ev.iter().map(|&e| e + s).collect());
+                chk_own!("add", "R", s + m.clone(), ev.iter().map(|&e| s + e).collect());
+                chk_own!("sub", "L", m.clone() - s, ev.iter().map(|&e| e - s).collect());
+                chk_own!("mul", "L", m.clone() * s, ev.iter().map(|&e| e * s).collect());
+                chk_own!("div", "R", s / m.clone(), ev.iter().map(|&e| s / e).collect());
                 chk!("sub", "L", &m - s, ev.iter().map(|&e| e - s).collect());
                 chk!("sub", "R", s - &m, ev.iter().map(|&e| s - e).collect());
                 chk!("div", "L", &m / s, ev.iter().map(|&e| e / s).collect());
